@@ -6,6 +6,7 @@ asks the real banks for responses and checks them against the documented shapes:
 per-bin triangles (triangular / Fbank), fitted peak gain and position, L2 norm, 3 dB
 crossings / equivalent rectangular bandwidth (Gabor / gammatone).
 """
+import contextlib
 import copy
 import math
 
@@ -224,6 +225,14 @@ def probe(mon, rec, cfg, bank, i, rng):
                   check="triangle", W=W, **info)
         if np.count_nonzero(want) >= 3:
             rec.nt((repr(cfg), i, W))
+        if rng.random() < 0.3 and isinstance(H, np.ndarray) and H.shape == (W,) and H.flags.writeable:
+            # the caller squares what it was given, in place, and asks again: the answer is the same response
+            H **= 2
+            H2 = np.asarray(bank.get_frequency_response(i, W))
+            rec.count("triangle_probes_repeated_after_the_client_overwrote_the_result")
+            if H2.shape != (W,) or np.any((np.abs(H2 - want) > 1e-9) & (np.abs(H2 ** 2 - want ** 2) > 1e-12)):
+                mon.v("%s filter %d width %d: the response asked for again after the caller overwrote the first answer is not the documented triangle" % (name, i, W),
+                      check="triangle", W=W, **info)
         return
     # ---- Gabor / gammatone
     bw = edges[i + 1] - edges[i]
@@ -269,7 +278,7 @@ def probe(mon, rec, cfg, bank, i, rng):
     if W2 <= 4096 and 0 < cen[i] < rate / 2:
         W2 += int(rng.integers(0, 2))
         half = bool(rng.integers(0, 2))
-        H2 = np.abs(np.asarray(bank.get_frequency_response(i, W2, half=half)))
+        H2 = np.abs(np.asarray(bank.get_frequency_response(i, W2, half=half) if W2 % 3 else bank.get_frequency_response(i, W2, half)))  # (keyword / positional)
         rec.ev()
         rec.count("direct_response_probes_%s_%s_width" % ("half" if half else "full", "odd" if W2 % 2 else "even"))
         want_len = (W2 // 2 + 1 if W2 % 2 == 0 else (W2 + 1) // 2) if half else W2
@@ -290,8 +299,12 @@ def run_case(case, rec, mon=None):
     cfg = case["cfg"]
     kind = case.get("kind", "bank")
     if kind == "bank":
+        strict = monitor.strict_settings() if case["idx"] % 6 == 4 else contextlib.nullcontext()
+        if case["idx"] % 6 == 4:
+            rec.count("banks_built_under_strict_process_settings")
         try:
-            bank = gen.build_bank(cfg)
+            with strict:
+                bank = gen.build_bank(cfg)
         except Exception as e:
             # the generator only produces ranges and flags the documentation allows: such a bank exists
             rec.count("bank_construction_raised")
